@@ -9,10 +9,12 @@ variable {ρ : Nat → Res}
 
 theorem Grow.addInterface (st : St) (x : Interface) : Grow st.types (Elab.addInterface st x).1.types := by
   refine ⟨⟨rfl, fun _ _ h => h, fun _ _ h => h, fun _ _ h => h, fun _ x h => ⟨x, h, rfl, rfl⟩, ?_,
-    fun _ x _ h => ⟨x, h, rfl, rfl⟩⟩, ?_⟩
+    fun _ x _ h => ⟨x, h, rfl, rfl⟩⟩, ?_, ?_, fun _ _ h => h⟩
   · intro i y _ h
     exact ⟨y, getElem?_append_lt' _ _ _ _ h, rfl⟩
   · simp [Elab.addInterface, Types.size] <;> omega
+  · intro i y h
+    exact getElem?_append_lt' _ _ _ _ h
 
 theorem unfoldItems_expRel {T : Types} :
     ∀ {ks : List (Str × ItemKind)} {out : List (Str × Tree)}, ExpRel ρ T ks out →
